@@ -142,8 +142,8 @@ def _expand_chunk(task):
                     out["sigs"][sig] += 1
                     if out["sigs"][sig] <= 2 and len(out["violations"]) < engine.MAX_VIOL_PER_CHUNK:
                         out["violations"].append(dict(v, family=fam.name, parent=pk, op=jsonable(op)))
-            if nxt is None:
-                continue
+            if nxt is None or obs.violations:
+                continue  # error states are reported, not expanded (their futures would only repeat the defect)
             k = h64(spec.key(nxt))
             mk = spec.mkey(nxt)
             if mk is not None:
